@@ -31,13 +31,13 @@ def run_translator() -> str | None:
     return None
 
 
-def setup():
+COQ_TARGETS = ["theories/Model/AnnotDbRun.vo"]
+
+
+def pre_build():
     err = run_translator()
     if err:
-        raise core.CheckError("sql_clause translator failed on the unchanged tree: " + err)
-    ok, log = core.make(None)
-    if not ok:
-        raise core.CheckError("build failed: " + log[-1500:])
+        raise core.CheckError("sql_clause translator failed: " + err)
 
 
 # ------------------------------------------------------------------ generators
@@ -384,7 +384,7 @@ def run(tier: str, seed: int) -> int:
     rep.pending_disagreements = []
     rng = random.Random(seed * 7919 + 17)
     terr = run_translator()
-    pr = core.proof_stage(PROP, ["theories/Model/AnnotDbRun.vo"]) if not terr else {"obligations": len(core.property_theorems(PROP)), "discharged": 0,
+    pr = core.proof_stage(PROP, COQ_TARGETS) if not terr else {"obligations": len(core.property_theorems(PROP)), "discharged": 0,
                                                     "theorems": {}, "problems": ["translator failed closed: " + terr]}
     core.proof_coverage(rep, pr, "make theories/Properties/C17.vo && coqc gen/assum_C17.v (Print Assumptions)", [
         "translator harness/translators/sql_clause.py: runs _matching_conditions with symbolic bounds and re-emits the SQL "
@@ -437,21 +437,10 @@ def run(tier: str, seed: int) -> int:
         translator_tie="ok" if terr is None else f"broken: {terr}",
         exhaustive=False,
     )
-    if proof_broken and not rep.violations:
-        # proof obligation broken and no failing input found by the widened search
-        rep.violation("proof-broken", dict(broken=pr["problems"], build_log_tail=pr.get("build_log_tail", "")[-1500:],
-                                           searched=f"{len(cases)} cases / {nq} queries against the interval oracle"), no_input=True)
-    elif rep.pending_disagreements and not rep.violations:
-        c, qi, i_q, m_q = rep.pending_disagreements[0]
-        rep.violation("correspondence:" + classify(c, qi), dict(case=dict(c, queries=[c["queries"][qi]]), observed_impl=jsonable(i_q), model_output=jsonable(m_q),
-                                                                 broken="correspondence Model.AnnotDbRun.run_case vs cogent3.core.annotation_db "
-                                                                        "(input outside the specification's guard or specification agrees with the implementation)"),
-                      no_input=True)
-    if tier == "thorough" and not proof_broken:
-        chk = core.coqchk(PROP)
-        rep.coverage["coqchk"] = chk
-        if not chk["ok"]:
-            rep.violation("coqchk-failed", dict(broken="coqchk", tail=chk["tail"]), no_input=True)
+    dis = [dict(key=classify(c, qi), case=dict(c, queries=[c["queries"][qi]]), observed_impl=jsonable(i_q), model_output=jsonable(m_q))
+           for (c, qi, i_q, m_q) in rep.pending_disagreements[:5]]
+    core.conclude(rep, pr, f"{len(cases)} cases / {nq} queries against the interval oracle", dis,
+                  "Model.AnnotDbRun.run_case vs cogent3.core.annotation_db", tier, PROP)
     return rep.finish("proof")
 
 
